@@ -135,5 +135,5 @@ RULES = [
     RuleDef('R2', 'compound membership = operator(members), one include complement', r2, 2),
     RuleDef('R3', 'compound mask = operator on operands padded to the union box', r3, 1),
     RuleDef('R4', 'conversion and rotation are component-wise and keep the operator', r4, 14),
-    RuleDef('R5', 'annulus algebra, area and box', r5, 13),
+    RuleDef('R5', 'annulus algebra, area and box', r5, 12),
 ]
